@@ -422,6 +422,9 @@ def main(run):
     # the summary table of dassh.out through which a user reads this property (vf/props/reports.py)
     from . import reports
     run.explore('report-interasm', reports.cases_interasm(run.tier), reports.run_interasm, budget_s=300)
+    # the core rows of the energy-balance table (heat through the duct walls per assembly and of the gap) on cores
+    run.explore('report-ebal', [c_ for c_ in reports.cases_ebal(run.tier) if len(c_['layout'].split()) > 1],
+                reports.run_ebal, budget_s=300)
     # the csv dump of this property's field: every row is the recorded field of that assembly at that plane
     from . import reports as _rep
     run.explore('report-dumps', _rep.cases_dumps(run.tier), _rep.run_dumps_C02, budget_s=300)
